@@ -169,6 +169,20 @@ def parse_via(text, via="file", want=None):
         via = "file"
     if via == "file":
         return Chart.from_file(io.StringIO(text), **kw)
+    if via == "file-debug":
+        # the client has switched DEBUG logging on (for the package and for the root logger): what is logged, and
+        # whether anybody listens, changes nothing about what is parsed
+        import logging
+
+        lg = [logging.getLogger(), logging.getLogger("chartparse")]
+        old = [x.level for x in lg]
+        for x in lg:
+            x.setLevel(logging.DEBUG)
+        try:
+            return Chart.from_file(io.StringIO(text), **kw)
+        finally:
+            for x, lv in zip(lg, old):
+                x.setLevel(lv)
     fd, path = tempfile.mkstemp(suffix=".chart")
     try:
         from pathlib import Path
